@@ -26,7 +26,7 @@ def runLeak (c : Case) : String := s!"res {c.id} leaked=0 released=1 closed=1 wh
 
 /-- `kind=nextret` (C08, subjects inside synchronous pipelines; go/harness/nextret.go): a producer's `Next` into a
     unicast subject whose observer is catching up with the backlog returns only after the value has been delivered —
-    `Subscribe` and its replay are one critical section of the subject (C10.subjects_wellLocked over the regenerated
+    `Subscribe` and its replay are one critical section of the subject (C10.subjects_wellLocked, C10.unicast_subscribe_locked_replay over the regenerated
     lock skeletons), and `Next` with an observer delivers before it returns (C10.unicast_delivers_outside_lock). -/
 def runNextRet (c : Case) : String := s!"res {c.id} early=0 delivered=1 order=ok"
 
